@@ -18,6 +18,7 @@ RULE = ("cases: objects of every exported class built from generated text - Port
         "native syntax (strict one-step fixpoint: t1 = X(input).line, X(t1).line == t1 and equal data()) and in "
         "accepted foreign spellings (meaning kept, text stable from the first re-parse on). Non-trivial: t1 "
         "differs from the whitespace-normalised input or the object has >= 2 items; distinct by canonical case")
+RULE += ". Directed classes added after the seeded-change rounds: port_nr / protocol_nr flipped in place and re-parsed with the current switches; long remark texts; free-text option operands; long / keyword-like ACL names"
 ASSUMPTIONS = ["one-step fixpoint is demanded when all addresses are in the platform's own spelling, two-step "
                "convergence otherwise (e.g. 0.0.0.0/0 on IOS)",
                "config functions are judged for indent >= 1 and non-empty bodies (the section splitter's domain)"]
